@@ -454,8 +454,9 @@ func (s *Sim) allDelivered() bool {
 
 // refetchClass decides, when get request r reaches the seam, whether it is a
 // system-reset re-fetch of a cached resource (2), the load of a resource the
-// gateway does not have (0), or undecidable from outside (1). Call with s.mu
-// held.
+// gateway does not have (0), undecidable from outside (1), or the re-fetch of
+// an entry that is still being loaded under a query not yet normalised (3; the
+// gateway ignores the answer). Call with s.mu held.
 //
 // The cache entry of a non-query resource lives as long as the event
 // subscription does, so replaying the earlier get requests of the same
@@ -464,14 +465,24 @@ func (s *Sim) allDelivered() bool {
 // is certainly cached only while a settled direct subscriber holds it.
 func (s *Sim) refetchClass(r *Req) int8 {
 	res := s.W.Res[r.Name]
-	if res == nil || res.V == nil {
-		return 0
+	// normOf: the cache key a get with this query ends up under. Without a
+	// normalised query in the answer (errors, unknown names) every raw query
+	// keeps an entry of its own.
+	normOf := func(q string) string {
+		if res == nil || res.V == nil {
+			return q
+		}
+		if n, ok := res.normalise(q); ok {
+			return n
+		}
+		return q
 	}
-	v := res.V[r.Query]
-	if v == nil {
-		// a re-fetch carries the normalised query
-		return 0
+	vq := normOf(r.Query)
+	var v *Variant
+	if res != nil && res.V != nil {
+		v = res.V[vq]
 	}
+	isQuery := res != nil && res.IsQuery
 	type ev struct {
 		seq  uint64
 		q    *Req
@@ -484,7 +495,7 @@ func (s *Sim) refetchClass(r *Req) int8 {
 		if q.Type != "get" || q.Name != r.Name || q.SubGen != r.SubGen || q.Seq > r.Seq {
 			continue
 		}
-		if n, ok := res.normalise(q.Query); !ok || n != v.Query {
+		if normOf(q.Query) != vq {
 			continue
 		}
 		evs = append(evs, ev{seq: q.Seq, q: q, send: true})
@@ -492,7 +503,11 @@ func (s *Sim) refetchClass(r *Req) int8 {
 			evs = append(evs, ev{seq: q.DlvSeq, q: q, cut: q.DlvCut})
 		}
 	}
-	for _, e := range v.Stream {
+	var stream []*StreamEv
+	if v != nil {
+		stream = v.Stream
+	}
+	for _, e := range stream {
 		// a delete event drops the cached resource as well
 		if e.Kind == "delete" && !e.Derived && e.DlvCut >= 0 && e.DlvSeq < r.Seq {
 			evs = append(evs, ev{seq: e.DlvSeq, del: true, cut: e.DlvCut})
@@ -509,10 +524,11 @@ func (s *Sim) refetchClass(r *Req) int8 {
 	loaded := false
 	initial := map[*Req]bool{}
 	refetch := map[*Req]bool{}
+	early := map[*Req]bool{}
 	// fuzzy: an answer or delete event reached the gateway but the gateway has
 	// not been idle since: it may still sit in the resource's work queue behind
 	// whatever made the gateway send r
-	fuzzy := false
+	fuzzy, fuzzyRaw := false, false
 	for _, e := range evs {
 		if e.del {
 			if !s.processed(r.Name, e.cut) {
@@ -520,6 +536,11 @@ func (s *Sim) refetchClass(r *Req) int8 {
 			}
 			loaded = false
 			continue
+		}
+		if !e.send && !s.processed(r.Name, e.cut) && e.q.Query == r.Query && r.Query != vq && initial[e.q] {
+			// the answer to the load of this very entry may still be waiting: r
+			// may be a re-fetch of the entry while it is being loaded
+			fuzzyRaw = true
 		}
 		if !e.send && !s.processed(r.Name, e.cut) && (!e.q.GotData || e.q.Query != r.Query) {
 			// (an answer with data to a get with the same query leaves no doubt: with
@@ -529,13 +550,24 @@ func (s *Sim) refetchClass(r *Req) int8 {
 		if e.send {
 			same := false
 			for q := range initial {
-				if q.Query == v.Query {
+				if q.Query == vq {
 					same = true
 				}
 			}
-			if e.q.Query != v.Query || (!loaded && !same) {
+			sameRaw := false
+			for q := range initial {
+				if q.Query == e.q.Query {
+					sameRaw = true
+				}
+			}
+			switch {
+			case e.q.Query != vq && sameRaw:
+				// subscribers to an entry being loaded share its get request: a second
+				// one is a re-fetch of that entry, whose answer the gateway ignores
+				early[e.q] = true
+			case e.q.Query != vq || (!loaded && !same):
 				initial[e.q] = true
-			} else {
+			default:
 				refetch[e.q] = true
 			}
 			continue
@@ -549,7 +581,13 @@ func (s *Sim) refetchClass(r *Req) int8 {
 			loaded = false
 		}
 	}
-	if r.Query != v.Query {
+	if early[r] {
+		return 3
+	}
+	if r.Query != vq {
+		if fuzzyRaw {
+			return 1
+		}
 		return 0
 	}
 	if fuzzy {
@@ -558,10 +596,10 @@ func (s *Sim) refetchClass(r *Req) int8 {
 	if !refetch[r] {
 		return 0
 	}
-	if !res.IsQuery {
+	if !isQuery {
 		return 2
 	}
-	if s.certainlyHeld(v) {
+	if v != nil && s.certainlyHeld(v) {
 		return 2
 	}
 	return 1
@@ -797,7 +835,7 @@ func (s *Sim) throttleStep() {
 	s.mu.Lock()
 	out := 0
 	for _, r := range s.tr.reqs {
-		if r.Seq > s.quietReset.DlvSeq && !r.Delivered && (r.Type == "access" || (r.Type == "get" && !s.initialGet(r))) {
+		if r.Seq > s.quietReset.DlvSeq && !r.Delivered && (r.Type == "access" || (r.Type == "get" && r.Rf != 0)) {
 			out++
 		}
 	}
